@@ -297,6 +297,14 @@ impl<'tcx> Cx<'tcx> {
         let tcx = self.tcx;
         let t = c.const_.ty();
         let mut o: Vec<(&'static str, J)> = vec![("ty", self.ty(t))];
+        if let mir::Const::Unevaluated(uv, _) = c.const_ {
+            if let Some(p) = uv.promoted {
+                o.push(("kind", J::s("promoted")));
+                o.push(("def", J::s(path_of(tcx, uv.def))));
+                o.push(("index", J::Int(p.as_usize() as i128)));
+                return J::Obj(o);
+            }
+        }
         match t.kind() {
             ty::FnDef(d, _) => {
                 o.push(("kind", J::s("fn")));
@@ -559,6 +567,11 @@ impl<'tcx> Cx<'tcx> {
     fn body(&mut self, did: DefId) -> J {
         let tcx = self.tcx;
         let body: &Body<'tcx> = tcx.optimized_mir(did);
+        self.body_of(did, body)
+    }
+
+    fn body_of(&mut self, did: DefId, body: &Body<'tcx>) -> J {
+        let tcx = self.tcx;
         let env = TypingEnv::post_analysis(tcx, did);
         let mut locals = vec![];
         for (_, d) in body.local_decls.iter_enumerated() {
@@ -846,7 +859,12 @@ impl rustc_driver::Callbacks for Facts {
             }
             let p = path_of(tcx, did);
             let b = cx.body(did);
-            bodies.push((p, b));
+            bodies.push((p.clone(), b));
+            let promoted = tcx.promoted_mir(did);
+            for (pi, pb) in promoted.iter_enumerated() {
+                let j = cx.body_of(did, pb);
+                bodies.push((format!("{}::promoted[{}]", p, pi.as_usize()), j));
+            }
         }
         // ctor shims (tuple-struct / tuple-variant constructors used as fn values)
         // are not body owners; they are recognised by the analyzer from `fn` consts.
